@@ -57,12 +57,12 @@ class Ob:
     """One obligation = one harness configuration = one CBMC run."""
     def __init__(s, name, harness, real=(), defines=None, unwind=6, unwindset=None, stubs=None, flags=(),
                  desc='', bounds='', tiers=('quick', 'thorough'), thorough=None, timeout=None, mem=None,
-                 diff=None, throw_assert=False, checks=False, expect_unreached=(), extra_c=(), encodes=()):
+                 diff=None, throw_assert=False, checks=False, expect_unreached=(), extra_c=(), encodes=(), caps=None):
         s.name = name; s.harness = harness; s.real = list(real); s.defines = dict(defines or {})
         s.unwind = unwind; s.unwindset = dict(unwindset or {}); s.stubs = dict(stubs or {}); s.flags = list(flags)
         s.desc = desc; s.bounds = bounds; s.tiers = tiers; s.thorough = thorough or {}
         s.timeout = timeout; s.mem = mem; s.diff = diff; s.throw_assert = throw_assert; s.checks = checks
-        s.expect_unreached = set(expect_unreached); s.extra_c = list(extra_c); s.encodes = list(encodes)
+        s.caps = caps; s.expect_unreached = set(expect_unreached); s.extra_c = list(extra_c); s.encodes = list(encodes)
 
     def for_tier(s, tier):
         if tier == 'thorough' and s.thorough:
@@ -75,8 +75,9 @@ class Ob:
         return s
 
 
-def define_flags(d):
-    return ['-D%s=%s' % (k, v) if v is not None else '-D' + k for k, v in d.items()]
+def define_flags(d, ob=None):
+    inc = ['-include', os.path.join(VERIF, 'harness', ob.caps)] if ob is not None and ob.caps else []
+    return inc + ['-D%s=%s' % (k, v) if v is not None else '-D' + k for k, v in d.items()]
 
 
 def build_ir(ob, W):
@@ -85,7 +86,7 @@ def build_ir(ob, W):
     srcs = [os.path.join(VERIF, 'harness', ob.harness)] + [os.path.join(SRC, r) for r in ob.real]
     for i, src in enumerate(srcs):
         out = os.path.join(W, 'tu%d.ll' % i)
-        cmd = ['clang++-14'] + CLANG_FLAGS + inc_flags() + define_flags(ob.defines) + ['-S', '-emit-llvm', src, '-o', out]
+        cmd = ['clang++-14'] + CLANG_FLAGS + inc_flags() + define_flags(ob.defines, ob) + ['-S', '-emit-llvm', src, '-o', out]
         rc, so, se, dt = run(cmd, timeout=300)
         if rc != 0: raise RuntimeError('clang failed on %s:\n%s' % (src, se[-3000:]))
         lls.append(out)
@@ -108,13 +109,14 @@ def translate(ob, W, norm):
     return gen, info
 
 
-CBMC_BASE = ['--function', 'harness', '--unwinding-assertions', '--drop-unused-functions', '--json-ui',
-             '--object-bits', '10', '--slice-formula']
+CBMC_BASE = ['--function', 'ir_entry', '--unwinding-assertions', '--drop-unused-functions', '--json-ui',
+             '--object-bits', '10']
 
 
-def cbmc_cmd(ob, W, gen, extra=()):
+def cbmc_cmd(ob, W, gen, extra=(), slice_formula=True):
     cmd = ['cbmc', gen, os.path.join(VERIF, 'harness', 'common', 'env_cbmc.c')] + [os.path.join(VERIF, 'harness', x) for x in ob.extra_c]
     cmd += CBMC_BASE + ['--unwind', str(ob.unwind)]
+    if slice_formula: cmd += ['--slice-formula']   # not for trace runs: slicing drops nondet inputs outside the cone of influence from the trace
     if ob.unwindset:
         cmd += ['--unwindset', ','.join('%s:%d' % kv for kv in ob.unwindset.items())]
     if not ob.checks: cmd += ['--no-standard-checks']
@@ -154,7 +156,7 @@ def classify(desc):
 def extract_stream(trace):
     vals = []
     for st in trace:
-        if st.get('stepType') != 'assignment': continue
+        if st.get('stepType') != 'assignment' or st.get('hidden'): continue
         lhs = st.get('lhs', '')
         if lhs != 'vnd_value': continue
         fn = st.get('sourceLocation', {}).get('function', '')
@@ -167,6 +169,26 @@ def extract_stream(trace):
     return vals
 
 
+
+def link_with_stubs(link, W, mode):
+    """link; functions of translation units that are not part of the obligation (unreachable from the harness)
+    get aborting definitions so that the executable links"""
+    rc, so, se, dt = run(link, timeout=600)
+    if rc == 0: return
+    und = sorted(set(re.findall(r"undefined reference to `([A-Za-z0-9_]+)'", se)))
+    if not und: raise RuntimeError('link failed:\n' + se[-3000:])
+    stub = os.path.join(W, 'undef_stubs_%s.c' % mode)
+    with open(stub, 'w') as f:
+        f.write('#include <stdlib.h>\n#include <stdio.h>\n')
+        for u in und:
+            if u.startswith(('_ZTV', '_ZTI', '_ZTS')): f.write('char %s[512];\n' % u)
+            else: f.write('void %s(void) { fprintf(stderr, "unlinked function %s reached\\n"); abort(); }\n' % (u, u))
+    so_ = os.path.join(W, 'undef_stubs_%s.o' % mode)
+    rc, so, se, dt = run(['gcc', '-c', '-w', stub, '-o', so_], timeout=60)
+    if rc != 0: raise RuntimeError('stub compile failed:\n' + se[-2000:])
+    rc, so, se, dt = run(link + [so_], timeout=600)
+    if rc != 0: raise RuntimeError('link failed:\n' + se[-3000:])
+
 def native_build(ob, W, mode):
     """mode 'cxx': g++ build of harness + real sources (the real code, real compiler);
        mode 'c'  : gcc build of the generated C (what CBMC analysed)."""
@@ -177,22 +199,35 @@ def native_build(ob, W, mode):
     rc, so, se, dt = run(['gcc', '-O1', '-g', '-c', env_native, '-o', envo] + hook + san, timeout=120)
     if rc != 0: raise RuntimeError('gcc env_native failed: ' + se[-2000:])
     exe = os.path.join(W, 'native_' + mode)
+    if os.path.exists(exe): return exe
     if mode in ('cxx', 'cxx_san'):
         srcs = [os.path.join(VERIF, 'harness', ob.harness)] + [os.path.join(SRC, r) for r in ob.real]
         objs = []
         for i, src in enumerate(srcs):
             o = os.path.join(W, 'n%s_%d.o' % (mode, i))
-            cmd = ['g++', '-std=c++20', '-O1', '-g', '-w', '-fno-strict-aliasing', '-fpermissive', '-DNDEBUG', '-DHAVE_CONFIG_H'] + san + inc_flags() + define_flags(ob.defines) + ['-c', src, '-o', o]
+            cmd = ['g++', '-std=c++20', '-O1', '-fno-inline', '-g', '-w', '-fno-strict-aliasing', '-fpermissive', '-DNDEBUG', '-DHAVE_CONFIG_H'] + san + inc_flags() + define_flags(ob.defines, ob) + ['-c', src, '-o', o]
             rc, so, se, dt = run(cmd, timeout=600)
             if rc != 0: raise RuntimeError('g++ failed on %s:\n%s' % (src, se[-3000:]))
+            if ob.stubs and i > 0:
+                # same cuts as in the encoding: the stubbed functions become weak, a shim redirects them to the harness monitor
+                rc, so, se, dt = run(['objcopy'] + ['--weaken-symbol=' + k for k in ob.stubs] + [o], timeout=60)
+                if rc != 0: raise RuntimeError('objcopy failed: ' + se[-1000:])
             objs.append(o)
-        rc, so, se, dt = run(['g++', '-o', exe] + san + objs + [envo] + ['-Wl,--allow-multiple-definition'], timeout=120)
-        if rc != 0: raise RuntimeError('g++ link failed:\n' + se[-3000:])
+        if ob.stubs:
+            shim = os.path.join(W, 'shim_%s.s' % mode)
+            with open(shim, 'w') as f:
+                f.write('\t.text\n')
+                for k, v in ob.stubs.items(): f.write('\t.globl %s\n\t.type %s, @function\n%s:\n\tjmp %s\n' % (k, k, k, v))
+                f.write('\t.section .note.GNU-stack,"",@progbits\n')
+            so_ = os.path.join(W, 'shim_%s.o' % mode)
+            rc, so, se, dt = run(['gcc', '-c', shim, '-o', so_], timeout=60)
+            if rc != 0: raise RuntimeError('shim failed: ' + se[-1000:])
+            objs.append(so_)
+        link_with_stubs(['g++', '-o', exe] + san + objs + [envo] + ['-Wl,--allow-multiple-definition', '-Wl,--no-demangle'], W, mode)
     else:
         extra = [os.path.join(VERIF, 'harness', x) for x in ob.extra_c]
         cmd = ['gcc', '-O1', '-g', '-w', '-fno-strict-aliasing', '-o', exe, os.path.join(W, 'gen.c'), os.path.join(VERIF, 'harness', 'common', 'env_native_rt.c'), envo] + extra + hook + ['-lstdc++']
-        rc, so, se, dt = run(cmd, timeout=600)
-        if rc != 0: raise RuntimeError('gcc gen.c failed:\n' + se[-3000:])
+        link_with_stubs(cmd + ['-Wl,--no-demangle'], W, mode)
     return exe
 
 
@@ -294,7 +329,7 @@ def decide(prop, ob, tier, seed, workroot, keep=False):
             for (pname, line, desc) in failed_asserts:
                 key = '%s:L%d' % (ob.name, line)
                 # counterexample trace for this property
-                cmd2 = cbmc_cmd(ob, W, gen, ['--property', pname, '--trace'])
+                cmd2 = cbmc_cmd(ob, W, gen, ['--property', pname, '--trace'], slice_formula=False)
                 o2 = os.path.join(W, 'trace_%s.json' % re.sub(r'\W', '_', pname))
                 with open(o2, 'wb') as fo:
                     rc2, _, se2, dt2 = run(cmd2, cwd=W, timeout=timeout * 2, mem_gb=mem, stdout=fo)
@@ -348,6 +383,7 @@ def main():
     ap.add_argument('prop'); ap.add_argument('--tier', default=os.environ.get('VERIF_TIER', 'quick'))
     ap.add_argument('--only', default=''); ap.add_argument('--keep', action='store_true')
     ap.add_argument('--jobs', type=int, default=int(os.environ.get('VERIF_JOBS', '12')))
+    ap.add_argument('-D', action='append', default=[], help='override a harness define K=V (experiments)'); ap.add_argument('--timeout', type=int, default=0)
     ap.add_argument('--replay', default=None); ap.add_argument('--no-evidence', action='store_true')
     a = ap.parse_args()
     seed = int(os.environ.get('VERIF_SEED', '1'))
@@ -371,6 +407,10 @@ def main():
     obs = [o.for_tier(a.tier) for o in obs_all if a.tier in o.tiers]
     if a.only:
         want = set(a.only.split(',')); obs = [o for o in obs if o.name in want]
+    for o in obs:
+        for kv in a.D:
+            k, _, v = kv.partition('='); o.defines[k] = v
+        if a.timeout: o.timeout = a.timeout
     results = []
     with ThreadPoolExecutor(max_workers=a.jobs) as ex:
         futs = [ex.submit(decide, a.prop, o, a.tier, seed, workroot, a.keep) for o in obs]
